@@ -426,9 +426,12 @@ func (matrix *SparseIntMatrix) PermuteRows(pi []int) error {
   if n != m {
     return fmt.Errorf("SymmetricPermutation(): matrix is not a square matrix")
   }
+  if len(pi) != n {
+    return fmt.Errorf("PermuteRows(): permutation vector has invalid length")
+  }
   // permute matrix
   for i := 0; i < n; i++ {
-    if pi[i] < 0 || pi[i] > n {
+    if pi[i] < 0 || pi[i] >= n {
       return fmt.Errorf("SymmetricPermutation(): invalid permutation")
     }
     if i != pi[i] && pi[i] > i {
@@ -442,9 +445,12 @@ func (matrix *SparseIntMatrix) PermuteColumns(pi []int) error {
   if n != m {
     return fmt.Errorf("SymmetricPermutation(): matrix is not a square matrix")
   }
+  if len(pi) != n {
+    return fmt.Errorf("PermuteColumns(): permutation vector has invalid length")
+  }
   // permute matrix
   for i := 0; i < m; i++ {
-    if pi[i] < 0 || pi[i] > n {
+    if pi[i] < 0 || pi[i] >= n {
       return fmt.Errorf("SymmetricPermutation(): invalid permutation")
     }
     if i != pi[i] && pi[i] > i {
@@ -458,8 +464,11 @@ func (matrix *SparseIntMatrix) SymmetricPermutation(pi []int) error {
   if n != m {
     return fmt.Errorf("SymmetricPermutation(): matrix is not a square matrix")
   }
+  if len(pi) != n {
+    return fmt.Errorf("SymmetricPermutation(): permutation vector has invalid length")
+  }
   for i := 0; i < n; i++ {
-    if pi[i] < 0 || pi[i] > n {
+    if pi[i] < 0 || pi[i] >= n {
       return fmt.Errorf("SymmetricPermutation(): invalid permutation")
     }
     if pi[i] > i {
